@@ -254,6 +254,7 @@ CLAIMS['C11']['text'] += ' C11_source_header_writers: CacheStatus.ApplyTo and Se
 CLAIMS['C02']['text'] += ' C02_source_conditional_request: withConditionalHeaders re-derived from helpers.go and proved equal to with_conditional_headers.'
 CLAIMS['C08']['text'] += ' C08_source_fix_date_header: FixDateHeader re-derived from internal/clock.go and proved equal to fix_date_header.'
 CLAIMS['C13']['text'] += ' C13_source_window: CanStaleOnError re-derived from internal/cacheabilityevaluator.go and proved equal to can_stale_on_error.'
+CLAIMS['C01']['text'] += ' C01_source_timed_call: roundTripTimed (the clock readings around the origin call, the Date repair) re-derived from roundtripper.go; syntactically the model\'s round_trip_timed.'
 for _pid in ('C07', 'C19'):
     CLAIMS[_pid]['text'] += (' %s_source_invalidation: InvalidateCache and invalidateLocationHeaders (which keys are deleted, in which order, after which reads of the store, none twice) '
                              'are re-derived from internal/cacheinvalidator.go by translate/inval.go before every build and proved equal up to peq to invalidate_cache (Proofs/TieInval.v).' % _pid)
